@@ -89,6 +89,31 @@ func init() {
 			},
 		}
 	})
+	// VolatileSession: the library's own in-memory store; retransmission after a
+	// reconnect reads what that store kept
+	register("pubflowvol", func() *Scenario {
+		return &Scenario{
+			Config:   baseConfig(),
+			Volatile: true,
+			Actors: []ActorSpec{
+				{Name: "reader", Reader: &ReaderSpec{Backoff: true}},
+				{Name: "A", Ops: []Op{
+					{Kind: "pub2", Topic: "v/1", Msg: []byte("V1-aaaa")},
+					{Kind: "pub2", Topic: "v/2", Msg: []byte("V2-bbbb")},
+					{Kind: "pub1", Topic: "v/3", Msg: []byte("V3-cccc")},
+					{Kind: "pub2r", Topic: "v/4", Msg: []byte("V4-dddd")},
+				}},
+			},
+			Inbound: []InMsg{{QoS: 1, ID: 9, Topic: "in/9", Body: []byte("inbound")}},
+			Faults:  Faults{Cut: true, NoResponse: true, WriteLost: true, WriteCuts: cutsEdge, WriteErr: true},
+			Horizon: 1500,
+			Final: func(w *World) {
+				w.monitorWire()
+				w.monitorDelivery("C01")
+				w.monitorPubrelWire("C05")
+			},
+		}
+	})
 	register("qos2out", func() *Scenario {
 		cfg := baseConfig()
 		cfg.ExactlyOnceMax = 2
